@@ -43,6 +43,7 @@ def run(ctx):
     conc.burst(ctx, 1, 8, 60 if ctx.quick() else 1500, kind=7, what=' (refused calls interleaved, 8 threads)')
     for kind, what, k in ((0, 'encaps', 1500), (1, 'PKE encrypt', 800), (2, 'header generate', 800)):
         conc.burst(ctx, 1, 16, k if ctx.quick() else 12 * k, kind=kind, what=f' (all {what}; contention at volume)')
+    conc.poison(ctx, 6 if ctx.quick() else 60)
     # a third of a million encapsulations compared with one another (a seed or state of 32 bits repeats itself at this volume)
     conc.volume(ctx, 16, 20000 if ctx.quick() else 60000)
     # histories: a public value that has been REPLACED (by a rekey) is never published again, whatever is disabled, pruned,
